@@ -600,7 +600,8 @@ def select__distinct_values(self: XPathFunction, context: ta.ContextType = None)
         collation = self.get_argument(self.context or context, 1, required=True, cls=str)
 
     with CollationManager(collation, self):
-        yield from distinct_values()
+        values = list(distinct_values())
+    yield from values
 
 
 @method(function('insert-before', nargs=3,
@@ -640,9 +641,9 @@ def select__index_of(self: XPathFunction, context: ta.ContextType = None) -> Ite
         collation = self.get_argument(context, 2, required=True, cls=str)
 
     with CollationManager(collation, self) as manager:
-        for pos, result in enumerate(self[0].atomization(context), start=1):
-            if manager.eq(result, value):
-                yield pos
+        positions = [pos for pos, result in enumerate(self[0].atomization(context), start=1)
+                     if manager.eq(result, value)]
+    yield from positions
 
 
 @method(function('remove', nargs=2, sequence_types=('item()*', 'xs:integer', 'item()*')))
